@@ -206,7 +206,7 @@ func cmdCheck(args []string) int {
 	var fcs []*FuncContract
 	var pk []string
 	for _, fc := range cs.Funcs {
-		if fc.Extern || fc.IsIface || !serves(fc) {
+		if fc.Extern || fc.IsIface || fc.Trusted || !serves(fc) {
 			continue
 		}
 		fcs = append(fcs, fc)
@@ -252,7 +252,12 @@ func cmdCheck(args []string) int {
 	if engineErrors > 0 {
 		return 2
 	}
-	pick := func(o *Obligation) bool { return contains(o.Props, *prop) }
+	pick := func(o *Obligation) bool {
+		if *tier != "thorough" && o.Kind == "vacuity" && strings.Contains(o.Name, "#vacuity:ret") {
+			return false // reachability of every return is a thorough-tier guard
+		}
+		return contains(o.Props, *prop)
+	}
 	workdir, err := os.MkdirTemp("", "govc-"+*prop+"-")
 	if err != nil {
 		fmt.Println("ENGINE-ERROR tmp:", err)
@@ -397,9 +402,9 @@ func cmdCheck(args []string) int {
 			"reach": o.Reach.s, "condition": o.Cond.s, "query_smt2": q,
 			"note": "obligation generated from /repo's current source by govc; it is discharged on the unchanged tree"}
 		confirmed := false
-		if o.Status == "refuted" {
-			confirmed = tryReplay(*verif, *repo, *prop, o, rec)
-		}
+		// with a counter-model, or without one (undecided): the harness of the function, if any, tries the model's
+		// values and the canonical witnesses of the failed clause on the real code
+		confirmed = tryReplay(*verif, *repo, *prop, o, rec)
 		b, _ := json.MarshalIndent(rec, "", " ")
 		os.WriteFile(rp, append(b, '\n'), 0o644)
 		suffix := " no-failing-input-found"
